@@ -121,6 +121,19 @@ CHECKS = {
         "recover (content not reset) is refuted at design level. The real library executes each history in one process on one "
         "goroutine and every call must produce the specification's bytes and error, the second A identical to the first.",
    design_ref="DESIGN.md §5 C10", note=EXEC_TRUST + " sync.Pool reuse on one goroutine is likely but not guaranteed by Go."),
+ "C11": dict(
+   technique="TLA+ JetConc (goroutines x operations, GetTemplate decomposed at Cache/Loader-call granularity, globals under their "
+             "lock) model-checked exhaustively by TLC (no deadlock, termination under fairness, serial results); every TLC "
+             "interleaving replayed on the real Set by a gate-driven scheduler; the operation mixes also run free under Go's race "
+             "detector",
+   text="TLC explores every interleaving of the goroutine programs (concurrent first loads of the same template, loads of "
+        "different names, executions while a global is updated, loader edits between loads) and records the schedule and the "
+        "result each operation must return. A scheduler that lets exactly one goroutine run between gates (gating Loader and "
+        "Cache wrappers, no source changes) drives the real Set through each schedule; every result must match. Data-race "
+        "freedom is not observable in TLA+: the same programs plus a mix that populates the struct-field cache with a new type, "
+        "uses pooled rangers, run-time includes, global updates and in-memory loader edits run free-running under -race, and "
+        "every concurrent Execute must render what it renders alone.",
+   design_ref="DESIGN.md §5 C11", note=NOTE_TRUST + " Go's race detector is the oracle for data races (reported in evidence as exploration); gate-driven replay serialises goroutines and therefore cannot see races itself."),
  "C12": dict(
    technique="TLA+ JetExec (Raise with class and statement id, Unwind, ErrorPrefix by construction of `out`) model-checked by TLC "
              "over Gen_C12 (failure class x position x file/nesting); every behaviour replayed on the real interpreter with a "
